@@ -255,6 +255,25 @@ func runProbe(probe string, on map[string]bool) (res probeRes) {
 			return probeRes{err: true}
 		}
 		return probeRes{text: w.String()}
+	case "stream_indent":
+		// each value into its own writer through one encoder; parts joined by NUL
+		var parts []string
+		var w bytes.Buffer
+		e := api.NewEncoder(&w)
+		e.SetIndent(">", " ")
+		for _, v := range []interface{}{encProbeStruct{1, "y"}, []int{2}} {
+			w.Reset()
+			if err := e.Encode(v); err != nil {
+				return probeRes{err: true}
+			}
+			// entry-point equivalence: the stream encoder writes what MarshalIndent returns (plus the newline, if any)
+			mi, err := api.MarshalIndent(v, ">", " ")
+			if err != nil || strings.TrimSuffix(w.String(), "\n") != string(mi) {
+				return probeRes{text: "STREAM-DIFFERS-FROM-MARSHALINDENT:" + w.String() + " vs " + string(mi)}
+			}
+			parts = append(parts, w.String())
+		}
+		return probeRes{text: strings.Join(parts, "\x00")}
 	case "doc_plain":
 		return dec(`{"A":3,"B":"héllo"}`, new(decProbeStruct))
 	case "doc_num_iface":
@@ -315,6 +334,14 @@ func lawHolds(law string, probe string, off, on probeRes) (bool, string) {
 	case "NoValidateJSONMarshaler":
 		return off.err && !on.err, "invalid marshaler output is an error unless validation is disabled"
 	case "NoEncoderNewline":
+		if probe == "stream_indent" {
+			offp, onp := strings.Split(off.text, "\x00"), strings.Split(on.text, "\x00")
+			ok := !off.err && !on.err && len(offp) == 2 && len(onp) == 2
+			for i := 0; ok && i < 2; i++ {
+				ok = offp[i] == onp[i]+"\n" && !strings.HasSuffix(onp[i], "\n")
+			}
+			return ok, "the indenting stream encoder's newline after each value disappears, nothing else changes"
+		}
 		return !off.err && !on.err && strings.Replace(off.text, "\n", "", -1) == on.text && strings.Count(off.text, "\n") == 2, "the stream encoder's newline after each value disappears"
 	case "UseNumber":
 		return !off.err && !on.err && strings.Contains(on.text, "json.Number") && !strings.Contains(off.text, "json.Number"), "numbers in interface{} become json.Number"
@@ -427,6 +454,9 @@ func optsMain(args []string) int {
 					add(optBad{Kind: "entrypoint", Switch: sw, Probe: probe, Others: sortedKeys(others), Detail: msg})
 				}
 			}
+			if msg := streamSetterCheck(probe, with); msg != "" {
+				add(optBad{Kind: "entrypoint", Switch: sw, Probe: probe, Others: sortedKeys(others), Detail: msg})
+			}
 			if sw == "EscapeHTML" || sw == "SortMapKeys" || sw == "CompactMarshaler" || sw == "NoNullSliceOrMap" || sw == "ValidateString" {
 				if msg := encoderSetterCheck(probe, with); msg != "" {
 					add(optBad{Kind: "entrypoint", Switch: sw, Probe: probe, Others: sortedKeys(others), Detail: msg})
@@ -505,6 +535,61 @@ func decoderSetterCheck(probe string, on map[string]bool) (msg string) {
 		return fmt.Sprintf("decoder.Decoder with setters %v: err=%v value %s; frozen Config: err=%v value %s", sortedKeys(on), err, showValue(reflect.ValueOf(got).Elem()), refErr, showValue(reflect.ValueOf(ref).Elem()))
 	}
 	return ""
+}
+
+// encoder.StreamEncoder configured through its setter methods against the frozen Config's NewEncoder
+func streamSetterCheck(probe string, on map[string]bool) (msg string) {
+	if probe != "stream" && probe != "stream_indent" {
+		return ""
+	}
+	defer func() {
+		if r := recover(); r != nil {
+			msg = fmt.Sprint("panic: ", r)
+		}
+	}()
+	vals := []interface{}{encProbeStruct{1, "y<"}, map[string]interface{}{"b": []int(nil), "a": "\xff"}, 2}
+	var w1, w2 bytes.Buffer
+	ref := configOf(on).Froze().NewEncoder(&w1)
+	se := encoder.NewStreamEncoder(&w2)
+	se.SetEscapeHTML(on["EscapeHTML"])
+	if on["SortMapKeys"] {
+		se.SortKeys()
+	}
+	se.SetCompactMarshaler(on["CompactMarshaler"])
+	if on["NoNullSliceOrMap"] {
+		se.Opts |= encoder.NoNullSliceOrMap
+	}
+	if on["EncodeNullForInfOrNan"] {
+		se.Opts |= encoder.EncodeNullForInfOrNan
+	}
+	se.SetValidateString(on["ValidateString"])
+	se.SetNoQuoteTextMarshaler(on["NoQuoteTextMarshaler"])
+	se.SetNoValidateJSONMarshaler(on["NoValidateJSONMarshaler"])
+	se.SetNoEncoderNewline(on["NoEncoderNewline"])
+	if probe == "stream_indent" {
+		ref.SetIndent("\t", "  ")
+		se.SetIndent("\t", "  ")
+	}
+	for _, v := range vals {
+		e1, e2 := ref.Encode(v), se.Encode(v)
+		if (e1 != nil) != (e2 != nil) {
+			return fmt.Sprintf("StreamEncoder with setters %v: err=%v; frozen Config's encoder: err=%v", sortedKeys(on), e2, e1)
+		}
+	}
+	a, b := w1.String(), w2.String()
+	if !on["SortMapKeys"] {
+		a, b = sortedBytes(a), sortedBytes(b)
+	}
+	if a != b {
+		return fmt.Sprintf("StreamEncoder with setters %v wrote %q; frozen Config's encoder wrote %q", sortedKeys(on), w2.String(), w1.String())
+	}
+	return ""
+}
+
+func sortedBytes(s string) string {
+	b := []byte(s)
+	sort.Slice(b, func(i, j int) bool { return b[i] < b[j] })
+	return string(b)
 }
 
 // encoder.Encoder with its setter methods against Config.Marshal
